@@ -97,9 +97,10 @@ func c03bound() []byte {
 // right flags, never mutates a node of the previous tree, and the read API of the result agrees
 // with the model.
 func VerifC03() {
+	isSet := v.Choice(2) == 0
 	maxH := 2
-	if v.Tier() > 0 {
-		maxH = 3
+	if v.Tier() > 0 || !isSet {
+		maxH = 3 // removals need height 3 to reach every rebalancing / key-propagation case
 	}
 	h := v.Choice(maxH + 1)
 	var leaves []c03kv
@@ -118,7 +119,6 @@ func VerifC03() {
 			oldVal = l.v
 		}
 	}
-	isSet := v.Choice(2) == 0
 	if isSet {
 		val := v.Bytes(1)
 		updated := tree.Set(key, val)
